@@ -128,6 +128,7 @@ type gen struct {
 	deferred []*ssa.Defer
 	sweepFrames string // non-empty: frame sweep of this property; callees are called through their sweep frame contracts
 	ifaceCtrs []*Contract // contracts of interface methods this method implements (behavioural subtyping)
+	rxElemKey  string // element array of syntax.Expr lists (theory regex-syntax-valid), preserved for rxlist bases
 	outerState *state // the state current when the outermost old(...) / state switch started (see loadLocal)
 	loopHavoc bool // the havoc in progress is a loop cut, not a call
 	stableCells []stableCell
@@ -282,7 +283,7 @@ func (g *gen) heapHavoc(key string) {
 		return
 	}
 	old := ""
-	if g.astValid && (key == "E|Iface" || key == "E|Int") {
+	if g.astValid && (key == "E|Iface" || key == "E|Int" || (g.rxElemKey != "" && key == g.rxElemKey)) {
 		old = g.cur.heap[key]
 		if old == "" {
 			if _, known := g.heapSort[key]; known {
@@ -290,7 +291,7 @@ func (g *gen) heapHavoc(key string) {
 			}
 		}
 	}
-	if strings.HasPrefix(key, "C|") && len(g.stableCells) > 0 {
+	if (strings.HasPrefix(key, "C|") || strings.HasPrefix(key, "F|")) && len(g.stableCells) > 0 {
 		prev := g.cur.heap[key]
 		if prev == "" {
 			if _, known := g.heapSort[key]; known {
@@ -336,6 +337,13 @@ func (g *gen) heapHavoc(key string) {
 		}
 	}()
 	defer func() {
+		if old != "" && g.rxElemKey != "" && key == g.rxElemKey {
+			if cur := g.cur.heap[key]; cur != "" && cur != old {
+				b := g.freshName("rlb")
+				g.assumeGlobal(fmt.Sprintf("(forall ((%s Int)) (! (=> (rxlist %s) (= (select %s %s) (select %s %s))) :pattern ((select %s %s))))", b, b, cur, b, old, b, cur, b))
+			}
+			return
+		}
 		if old != "" && g.declared["astlist"] {
 			if cur := g.cur.heap[key]; cur != "" && cur != old {
 				b := g.freshName("alb")
@@ -915,6 +923,9 @@ func (g *gen) newAlloc(prefix string) string {
 		g.declTnode()
 		g.declareFun("astlist", []string{"Int"}, "Bool")
 		g.assumeGlobal(and(not(app("tnode", n)), not(app("astlist", n))))
+		if g.declared["rxlist"] {
+			g.assumeGlobal(not(app("rxlist", n)))
+		}
 	}
 	return n
 }
